@@ -4,8 +4,8 @@ import (
 	"encoding/json"
 	"fmt"
 
-	"verif/internal/dsl"
 	"os"
+	"verif/internal/dsl"
 
 	"verif/internal/space"
 )
